@@ -568,3 +568,123 @@ def rule_raw(ctx, prop, known_ok=()):
         rep.floor("functions analysed", nfn, 150, cfg)
         rep.floor("trivia sinks fed by tracked token collections", nsink, 10, cfg)
     return rep
+
+
+COMMENT_KINDS = ("SingleLineComment", "MultiLineComment", "Shebang")
+
+
+def rule_sanitiser(ctx, prop):
+    """what R-RAW relies on: format_token really rewrites every comment token, for every FormatTokenType"""
+    from paths import Enumerator, TooManyPaths
+    rep = Report(prop, "R-RAW(sanitiser)", "every path of format_token that can be taken by a comment / shebang token rebuilds "
+                                           "the token from its trimmed / newline-converted text, whatever the FormatTokenType")
+    for cfg, prog in ctx.programs.items():
+        f = prog.fn("stylua_lib", "formatters::general::format_token")
+        if not rep.anchor(f is not None, "format_token", cfg):
+            continue
+        kinds = prog.variants("full_moon::tokenizer::TokenType", "stylua_lib") or []
+        others = [k for k in kinds if k not in COMMENT_KINDS]
+
+        def kind_of(st):
+            """set of token kinds the path can be taken by"""
+            poss = set(kinds)
+            for k, v in list(st.disc.items()) + [(k, v) for k, v in st.hist]:
+                if isinstance(v, str) and v in kinds:
+                    poss &= {v}
+                elif isinstance(v, tuple) and v and v[0] == "not" and set(v[1]) & set(kinds):
+                    poss -= set(v[1])
+            return poss
+        try:
+            res = Enumerator(f, max_paths=60000, prune=lambda st, bi: not (kind_of(st) & set(COMMENT_KINDS))).run()
+        except TooManyPaths:
+            rep.anchor(False, "format_token: too many paths", cfg)
+            continue
+        n = 0
+        bad = {}
+        for st in res:
+            poss = kind_of(st) & set(COMMENT_KINDS)
+            if not poss:
+                continue
+            n += 1
+            trail = set(st.trail)
+            aggs = [s_["rv"]["variant"] for b_, si_, s_ in f.stmts() if b_ in trail and s_["k"] == "assign" and s_["rv"]["k"] == "agg"
+                    and s_["rv"].get("adt", "").endswith("TokenType") and s_["rv"].get("variant") in COMMENT_KINDS]
+            cleaned = any(re.search(r"format_single_line_comment_string$|<impl str>::(replace|trim_end|trim)$|str::replace$", c)
+                          for _, c, _ in st.calls)
+            if not (aggs and cleaned):
+                ft = sorted({str(v) for k, v in st.hist if isinstance(v, str) and v in ("Token", "LeadingTrivia", "TrailingTrivia")})
+                bad.setdefault((tuple(sorted(poss)), tuple(ft)), st)
+        rep.inst(f"{f.key} comment tokens are always rebuilt from sanitised text", {"comment_paths": n}, cfg, ok=not bad)
+        for (poss, ft), st in sorted(bad.items())[:3]:
+            rep.violation(f"{f.key} comment-token-returned-unsanitised kinds={','.join(poss)} format_type={','.join(ft) or 'any'}",
+                          f"format_token has a path for {list(poss)} tokens (FormatTokenType {list(ft) or 'any'}) that returns the token "
+                          f"without trimming / converting its text: comments moved by the formatter (format_moved_comment) and "
+                          f"trivia formatted with that type keep the input's carriage returns", f.loc(), cfg)
+        rep.floor("format_token paths taken by comment tokens", n, 3, cfg)
+    return rep
+
+
+FORMATTERS = re.compile(SANITISE.pattern + r"|(^|::)formatters::[a-z_]+::hang_(expression|expression_trailing_newline|punctuated_list|type_info)$")
+NEUTRAL = re.compile(r"to_owned$|Clone>::clone$|update_(leading_|trailing_)?trivia$|::with_[a-z_]+$|Deref>::deref$|Box::<.*>::new$|"
+                     r"AsRef.*as_ref$|Borrow.*borrow$|Option::<.*>::(unwrap|expect|as_ref)$")
+
+
+def _formatted_root(f, o, depth=0, seen=None):
+    """the formatter call a node value came out of (through clones, trivia updates, with_*()), or None"""
+    seen = set() if seen is None else seen
+    if is_const(o) or depth > 12:
+        return None
+    l = op_place(o)["l"]
+    if l in seen:
+        return None
+    seen.add(l)
+    for bi, si, s in f.defs().get(l, []):
+        if si == "term":
+            c = callee(s)
+            if FORMATTERS.search(c):
+                return c
+            if NEUTRAL.search(c) and s["args"]:
+                r = _formatted_root(f, s["args"][0], depth + 1, seen)
+                if r:
+                    return r
+        else:
+            rv = s["rv"]
+            if rv["k"] in ("use", "cast") and not is_const(rv["o"]):
+                r = _formatted_root(f, rv["o"], depth + 1, seen)
+                if r:
+                    return r
+            elif rv["k"] == "ref":
+                r = _formatted_root(f, {"cp": rv["p"]}, depth + 1, seen)
+                if r:
+                    return r
+    return None
+
+
+def rule_once(ctx, prop):
+    """a node is formatted once: the tokens a formatter builds carry no source position (byte 0), so a second formatter
+    run over them takes the range test, the ignore scan and every position-based decision on meaningless data"""
+    rep = Report(prop, "R-ONCE", "no formatter (format_* / hang_expression* / hang_punctuated_list / hang_type_info) is applied "
+                                 "to a node that already came out of a formatter")
+    for cfg, prog in ctx.programs.items():
+        n = 0
+        for f in prog.fns("stylua_lib"):
+            if not f.path.startswith("formatters::"):
+                continue
+            for b, t in f.calls():
+                c = callee(t)
+                if not FORMATTERS.search(c):
+                    continue
+                n += 1
+                for i, a in enumerate(t["args"]):
+                    if is_const(a) or not nodety(f.local_ty(op_place(a)["l"])):
+                        continue
+                    r = _formatted_root(f, a)
+                    if r:
+                        rep.violation(f"{f.key} formatted-node-formatted-again {c.split('::')[-1]}<-{r.split('::')[-1]}",
+                                      f"{f.path} hands {c} a node that came out of {r}: its tokens were rebuilt without source "
+                                      f"positions, so under a formatting range should_format_node answers NotInRange for them "
+                                      f"(format_field then reaches unreachable!()), and ignore / toggle comments are judged twice",
+                                      f.loc(t["sp"]), cfg)
+        rep.inst("formatter call sites receive unformatted nodes", {"call_sites": n}, cfg, ok=True)
+        rep.floor("formatter call sites", n, 200, cfg)
+    return rep
